@@ -42,7 +42,7 @@ def run(ctx):
     ctx.trusted += ["TLC", "RawHttpR (wire rendering) and the reference parser of RawHttp.tla", "harness wire encoder (judged by TLC against RawHttpR on every event)"]
     ctx.assumptions += ["parameter values are non-empty, keys unique per message, header keys unique and without ': '", "paths are reported as on the wire (no percent-decoding)", "paths do not start with '//' (network-path reference) and contain no '#' or '?'"]
     env = {"TIER": ctx.tier}
-    r = ctx.tlc("RawHttp", "SPECIFICATION Spec\nINVARIANT ReqRoundTrip\nINVARIANT RespRoundTrip\nINVARIANT StartLines\n", name="model", env={**env, "MODE": "none", "OUTF": "/dev/null", "TRACE": "/dev/null"}, coverage=False)
+    r = ctx.tlc("RawHttp", "SPECIFICATION Spec\nINVARIANT ReqRoundTrip\nINVARIANT RespRoundTrip\nINVARIANT StartLines\nINVARIANT InflationLaw\n", name="model", env={**env, "MODE": "none", "OUTF": "/dev/null", "TRACE": "/dev/null"}, coverage=False)
     core.require_clean(r, "RawHttp reference parser round trip")
     tab = core.tlc_table(ctx, "RawHttpIO", "", env=env)
 
